@@ -37,6 +37,7 @@ Maps == << [id |-> "absent",  map |-> FALSE, ns |-> <<>>],
            [id |-> "bound",   map |-> TRUE,  ns |-> [x \in {"p", "q"} |-> IF x = "p" THEN "u1" ELSE "u2"]],
            [id |-> "rebind",  map |-> TRUE,  ns |-> [x \in {"p"} |-> "u2"]],
            [id |-> "other",   map |-> TRUE,  ns |-> [x \in {"r", "p"} |-> IF x = "r" THEN "u1" ELSE "u3"]],
+           [id |-> "emptyuri", map |-> TRUE, ns |-> [x \in {"p", "q"} |-> IF x = "p" THEN "" ELSE "u1"]],
            [id |-> "empty",   map |-> TRUE,  ns |-> <<>>] >>
 Cfgs == {[id |-> Maps[i].id, map |-> Maps[i].map, ns |-> Maps[i].ns, uri |-> u] : i \in 1 .. Len(Maps), u \in BOOLEAN}
 
